@@ -81,7 +81,7 @@ def meta(tier):
     import torchtt._decomposition as dec
     fns = [ip.dmrg_cross, ip.function_interpolate, ip._maxvol, ip._max_matrix, dec.rank_chop, dec.lr_orthogonal]
     return {
-        'functions': loader.functions_encoded(fns), 'sig': sig,
+        'overapprox': True, 'functions': loader.functions_encoded(fns), 'sig': sig,
         'bounds': 'CLAUSE DECIDED: only "dmrg_cross calls the user function with an M x d int64 index matrix whose column k lies in [0, N[k])" (plus shape/rank well-formedness of the result). '
                   'orders 2..4 (thorough 5), mode sizes 2..4 (thorough 5), kick 0..2, nswp 1..2, random start or a start tensor with ranks 1..5 (incl. ranks larger than the modes allow); every floating value is havoc (any value, '
                   'every comparison nondeterministic), so all outcomes of QR/SVD/solve/maxvol pivoting, rank_chop and the convergence test are covered; _maxvol: matrices m x n with m < 6 (8), n < 4 (5), '
